@@ -1,0 +1,88 @@
+//! Verification hooks (compiled only with `--cfg cicada_verif`).
+//!
+//! Thin `pub` wrappers that let an external harness call crate-private
+//! functions in-process, plus a scripted stand-in for `run_proc` so that the
+//! list-evaluation loop can be driven without spawning processes.
+#![allow(dead_code)]
+use std::cell::RefCell;
+use std::collections::HashMap;
+
+use crate::shell::Shell;
+use crate::types::{CommandResult, Tokens};
+
+pub use crate::shell::Shell as VShell;
+
+thread_local! {
+    static SCRIPT: RefCell<Option<HashMap<String, i32>>> = RefCell::new(None);
+    static TRACE: RefCell<Vec<(String, i32)>> = RefCell::new(Vec::new());
+}
+
+/// Install (or clear) the scripted `run_proc`: pipeline text -> status.
+pub fn set_run_proc_script(script: Option<HashMap<String, i32>>) {
+    SCRIPT.with(|s| *s.borrow_mut() = script);
+    TRACE.with(|t| t.borrow_mut().clear());
+}
+
+pub fn take_trace() -> Vec<(String, i32)> {
+    TRACE.with(|t| std::mem::take(&mut *t.borrow_mut()))
+}
+
+/// Called first thing in `execute::run_proc`. `None` = no script installed.
+pub fn scripted_run_proc(_sh: &mut Shell, line: &str) -> Option<CommandResult> {
+    let status = SCRIPT.with(|s| {
+        s.borrow().as_ref().map(|m| *m.get(line).unwrap_or(&99))
+    })?;
+    TRACE.with(|t| t.borrow_mut().push((line.to_string(), status)));
+    Some(CommandResult::from_status(0, status))
+}
+
+pub fn new_shell() -> Shell {
+    Shell::new()
+}
+
+pub fn line_to_cmds(line: &str) -> Vec<String> {
+    crate::parsers::parser_line::line_to_cmds(line)
+}
+
+pub fn parse_line(line: &str) -> (Tokens, bool) {
+    let li = crate::parsers::parser_line::parse_line(line);
+    (li.tokens, li.is_complete)
+}
+
+pub fn tokens_to_line(tokens: &Tokens) -> String {
+    crate::parsers::parser_line::tokens_to_line(tokens)
+}
+
+pub fn tokens_to_redirections(tokens: &Tokens) -> Result<(Tokens, Vec<(String, String, String)>), String> {
+    crate::parsers::parser_line::tokens_to_redirections(tokens)
+}
+
+pub fn unquote(s: &str) -> String {
+    crate::parsers::parser_line::unquote(s)
+}
+
+pub fn wrap_sep_string(sep: &str, s: &str) -> String {
+    crate::tools::wrap_sep_string(sep, s)
+}
+
+pub fn is_arithmetic(line: &str) -> bool {
+    crate::tools::is_arithmetic(line)
+}
+
+pub fn re_contains(text: &str, ptn: &str) -> bool {
+    crate::libs::re::re_contains(text, ptn)
+}
+
+/// `execute::run_command_line` under a scripted `run_proc`.
+/// Returns (trace of executed pipelines with status, previous_status afterwards).
+pub fn run_command_line_scripted(
+    sh: &mut Shell,
+    line: &str,
+    script: HashMap<String, i32>,
+) -> (Vec<(String, i32)>, i32, usize) {
+    set_run_proc_script(Some(script));
+    let crs = crate::execute::run_command_line(sh, line, false, false);
+    let trace = take_trace();
+    set_run_proc_script(None);
+    (trace, sh.previous_status, crs.len())
+}
